@@ -460,3 +460,104 @@ Proof.
   split; [cbn; repeat (constructor; [cbn; intuition discriminate|]); constructor|].
   vm_compute. repeat split; reflexivity.
 Qed.
+
+(* ------------------------------------------------------------------ ONE configuration object whose inputs change
+   (round-6 gap): parametrize() for another platform / route / system variables, add_environment(), a changed
+   launch environment between two questions.  Env.SessModel answers every question from the CURRENT state. *)
+Require Import V.Env.SessModel V.Env.SessProofs.
+
+(* parametrize(): whatever the object was asked and whatever was changed before (other platforms, add_environment,
+   other system variables), afterwards it holds the configuration of the document it was created from, seen from
+   the new platform, and every answer is the answer of a NEW object created for that platform under the launch
+   environment of the moment of the question: nothing is remembered. *)
+Theorem C17_parametrize_fresh : forall d s chs plat np sv name i,
+  let s' := run_changes d s (chs ++ [ChParam plat np sv]) in
+  st_cfg s' = configure d plat np sv /\
+  ask_node s' name i = ask_node (init_state d plat np sv (st_launch s')) name i /\
+  ask_default s' = ask_default (init_state d plat np sv (st_launch s')) /\
+  forall expand, ask_name s' name expand = ask_name (init_state d plat np sv (st_launch s')) name expand.
+Proof.
+  intros d s chs plat np sv name i. cbn zeta. split; [apply parametrize_resets|]. apply parametrize_fresh.
+Qed.
+Print Assumptions C17_parametrize_fresh.
+
+(* a changed launch environment replaces the old one completely and touches nothing else *)
+Theorem C17_launch_replaces : forall d s chs l,
+  st_cfg (run_changes d s (chs ++ [ChLaunch l])) = st_cfg (run_changes d s chs) /\
+  st_launch (run_changes d s (chs ++ [ChLaunch l])) = l.
+Proof. exact launch_replaces. Qed.
+Print Assumptions C17_launch_replaces.
+
+(* add_environment raises FlowIREnvironmentExists exactly when the target platform (platform default when asked
+   for, else the active platform) already files the lower-cased name, or the name is "none" *)
+Theorem C17_add_exists : forall v od name e,
+  add_environment v od name e = None <-> gpe (target_tab v od) name <> None.
+Proof. exact add_exists. Qed.
+Print Assumptions C17_add_exists.
+
+(* a stored environment: the target table gained the lower-cased name; platform, system variables, global
+   variables and the other table are as before *)
+Theorem C17_add_stored : forall v od name e v',
+  NoDup (keys (denvs (base v))) -> NoDup (keys (penvs (base v))) ->
+  add_environment v od name e = Some v' ->
+  is_default (base v') = is_default (base v) /\ sysv (base v') = sysv (base v) /\
+  dglob v' = dglob v /\ pglob v' = pglob v /\
+  (if od || is_default (base v)
+   then D (base v') = set (lower name) e (D (base v)) /\ (is_default (base v) = false -> P (base v') = P (base v))
+   else D (base v') = D (base v) /\ P (base v') = set (lower name) e (P (base v))).
+Proof. exact add_stored. Qed.
+Print Assumptions C17_add_stored.
+
+(* ... so it is found under every spelling of its name, and the environment of no other name changes *)
+Theorem C17_add_found : forall v od name e v',
+  NoDup (keys (denvs (base v))) -> NoDup (keys (penvs (base v))) ->
+  add_environment v od name e = Some v' ->
+  (forall m, lower m = lower name -> exists env, get_environment (base v') m = Ok env) /\
+  (forall m, lower m <> lower name -> get_environment (base v') m = get_environment (base v) m).
+Proof.
+  intros v od name e v' Hd Hp Ha. split; [eapply add_found; eassumption|eapply add_other_names; eassumption].
+Qed.
+Print Assumptions C17_add_found.
+
+(* once a package has gained a default environment, a component that selects no environment gets it - the same
+   for every launch environment: nothing of the launch environment is selected any more *)
+Theorem C17_added_default_environment : forall v od name e v',
+  NoDup (keys (denvs (base v))) -> NoDup (keys (penvs (base v))) ->
+  add_environment v od name e = Some v' -> lower name = "environment" ->
+  exists env, get_environment (base v') "environment" = Ok env /\
+    forall launch, default_environment (base v') launch = env /\
+                   forall sel, norm_name sel = "environment" -> selected (base v') launch sel = Ok env.
+Proof. exact added_default_environment. Qed.
+Print Assumptions C17_added_default_environment.
+
+(* non-vacuity: a package whose default environment differs per platform and is missing on q; one object created for
+   platform default, parametrized for p (non-primitive), then for q where the launch environment is the default
+   environment until add_environment files one; a second add raises FlowIREnvironmentExists; a launch change *)
+Definition ex_doc : doc3 := {|
+  envs3 := [("default", [("environment", [("SCHEDULER", RStr "local"); ("APP", RStr "/opt/%(G)s")])]);
+            ("p", [("Environment", [("SCHEDULER", RStr "lsf"); ("QUEUE", RStr "normal")])]);
+            ("q", [("mine", [("W", RStr "q")])])];
+  globs3 := [("default", [("G", RStr "app")]); ("p", []); ("q", [])] |}.
+Definition ex_doc_nodefault : doc3 := {| envs3 := [("default", []); ("q", [("mine", [("W", RStr "q")])])]; globs3 := [] |}.
+Definition ex_s0 := init_state ex_doc "default" false [("INSTANCE_DIR", "/inst")] [("HOME", "/h"); ("OLD", "old")].
+Definition ex_q0 := init_state ex_doc_nodefault "q" false [("INSTANCE_DIR", "/inst")] [("HOME", "/h"); ("OLD", "old")].
+Example C17_nonvacuous_object :
+  ask_node ex_s0 None false = Ok3 [("INSTANCE_DIR", "/inst"); ("SCHEDULER", "local"); ("APP", "/opt/app")] /\
+  ask_node (run_changes ex_doc ex_s0 [ChParam "p" true [("INSTANCE_DIR", "/inst")]]) None false =
+    Ok3 [("INSTANCE_DIR", "/inst"); ("SCHEDULER", "lsf"); ("APP", "/opt/app"); ("QUEUE", "normal")] /\
+  ask_default ex_q0 = [("HOME", "/h"); ("OLD", "old")] /\
+  ask_default (run_changes ex_doc_nodefault ex_q0 [ChLaunch [("NEW", "new")]]) = [("NEW", "new")] /\
+  ask_node (run_changes ex_doc_nodefault ex_q0 [ChLaunch [("NEW", "new")]; ChAdd false "Environment" [("ONLY", RStr "this")]]) (Some "ENVIRONMENT") false =
+    Ok3 [("INSTANCE_DIR", "/inst"); ("ONLY", "this")] /\
+  add_environment (st_cfg (run_changes ex_doc_nodefault ex_q0 [ChAdd false "Environment" [("ONLY", RStr "this")]])) false "ENVIRONMENT" [] = None /\
+  add_environment (st_cfg ex_q0) false "None" [] = None /\
+  (exists v', add_environment (st_cfg ex_q0) true "environment" [("ONLY", RStr "this")] = Some v' /\
+              default_environment (base v') [("ANY", "thing")] = [("ONLY", "this")]) /\
+  ask_default (run_changes ex_doc_nodefault ex_q0 [ChAdd false "environment" [("ONLY", RStr "this")]; ChParam "q" false []]) = [("HOME", "/h"); ("OLD", "old")] /\
+  NoDup (keys (denvs (base (st_cfg ex_q0)))) /\ NoDup (keys (penvs (base (st_cfg ex_q0)))).
+Proof.
+  repeat (split; [vm_compute; reflexivity|]).
+  split; [eexists; split; vm_compute; reflexivity|].
+  split; [vm_compute; reflexivity|].
+  split; vm_compute; repeat (constructor; [cbn; intuition discriminate|]); constructor.
+Qed.
